@@ -50,9 +50,9 @@ TEXT["C15"] = dict(
     technique="runtime conservation monitor (hooked wrapped reader/writer) over bounded-exhaustive fault scripts",
 )
 TEXT["C16"] = dict(
-    level="Two-run non-interference runtime monitoring: for each generated base URL the redaction is run once per credential of a 15-element pool and all outputs must coincide; field equality, input immutability and pointer identity for nil userinfo are asserted on every run; the error-rewriting function is observed on five kinds of error values. Exploration over generated URLs.",
-    note="Trusts url.URL.String and reflect.DeepEqual.",
-    technique="runtime two-run (pairwise) comparison monitor",
+    level="Two-run non-interference runtime monitoring: for each generated base URL the redaction is run once per credential of a 15-element pool and all outputs must coincide; field equality, input immutability and pointer identity for nil userinfo are asserted on every run; the same *url.URL is redacted again after its components and credentials changed; the error-rewriting function is observed on five kinds of error values; a race-detector stage shares one *url.URL between redacting, error-rewriting and reading goroutines (the input must never be modified, not even transiently). Exploration over generated URLs and schedules.",
+    note="Trusts url.URL.String, reflect.DeepEqual and the race detector.",
+    technique="runtime two-run (pairwise) comparison monitor + race detector on a shared input",
 )
 
 TEXT["C07"] = dict(
